@@ -62,4 +62,15 @@ theorem nc09g_trailing_nul_key_ties :
   revert this
   decide
 
+/-- NC09f (repaired in /repo, kept as the regression witness): `df.apply_index(df['k'])` in place on columns k = [0, 2, 0],
+    n = [1, 0, 2]. As found the index column is permuted first (k becomes [0, 0, 0]) and `n` is then re-ordered by THAT:
+    [1, 1, 1]. Reading the index once gives what the out-of-place call gives: k = [0, 0, 0], n = [1, 2, 1]. -/
+theorem nc09f_own_index_column_permuted_midway :
+    let num (xs : List Int) : Field := { info := ⟨"numeric", "int64", 0, []⟩, payload := .plain xs, writeEnabled := true }
+    colsInPlaceOwnAsFound .repaired "k" [] [("k", num [0, 2, 0]), ("n", num [1, 0, 2])] =
+      .ok [("k", num [0, 0, 0]), ("n", num [1, 1, 1])] ∧
+    dfApplyIndex .repaired [("src", [("k", num [0, 2, 0]), ("n", num [1, 0, 2])])] "src" [0, 2, 0] none =
+      .ok [("src", [("k", num [0, 0, 0]), ("n", num [1, 2, 1])])] := by
+  constructor <;> rfl
+
 end Exetera.Witness.C09
